@@ -849,3 +849,86 @@ class lemma_one_sample_gives_zero_or_one:
     def setup(B, kind='circle'):
         return dict(kind=kind, params=_kind_params(B, kind), x0=B.real('x0'), y0=B.real('y0'), x1=B.real('x1'), y1=B.real('y1'))
     post = {'membership_of_the_pixel_centre': lambda result: result}
+
+
+# ---------------------------------------------------------------------------------------------------------------------------
+# translation invariance of the even-odd rule and of the sampled fraction of a polygon (used by C15: shifting a polygon by whole
+# pixels leaves its mask unchanged).  Both by induction (ghost loops); the relation "w is v shifted by (k, l)" is a universally
+# quantified precondition, checked where the lemma is applied at an arbitrary index.
+def shifted(vx, vy, wx, wy, k, l, E):
+    """at the (arbitrary) index E the arrays w are the arrays v shifted by (k, l), and they have the same length"""
+    return len(wx) == len(vx) and len(wy) == len(vy) and ((not (0 <= E and E < len(vx))) or (wx[E] == vx[E] + k and wy[E] == vy[E] + l))
+
+
+def ghost_point_vs_shifted_polygon(vx, vy, wx, wy, x, y, k, l):
+    n = len(vx)
+    for e in range(n):
+        pass
+    return (odd_crossings(vx, vy, x, y, n), odd_crossings(wx, wy, x + k, y + l, n))
+
+
+@contract('contracts/k_kernels.py::ghost_point_vs_shifted_polygon', props=['C15'])
+class lemma_translation_keeps_the_crossing_parity:
+    def setup(B):
+        n = B.int('n')
+        B.assume(n >= 1)
+        vx, vy, k, l = B.array('vx', (n,)), B.array('vy', (n,)), B.real('k'), B.real('l')
+        return dict(vx=vx, vy=vy, wx=vx + k, wy=vy + l, x=B.real('x'), y=B.real('y'), k=k, l=l)
+    loops = {'ghost_point_vs_shifted_polygon#0': lambda e, vx, vy, wx, wy, x, y, k, l:
+             odd_crossings(vx, vy, x, y, e) == odd_crossings(wx, wy, x + k, y + l, e)}
+    post = {'same_parity': lambda result: result[0] == result[1],
+            'same_membership': lambda vx, vy, wx, wy, x, y, k, l: crossings_odd(vx, vy, x, y) == crossings_odd(wx, wy, x + k, y + l)}
+
+
+def apply_point_translation(vx, vy, wx, wy, x, y, k, l):
+    """modular use of lemma_translation_keeps_the_crossing_parity: its precondition (w is v shifted by (k, l), for every index) is an
+    obligation here, checked at an arbitrary index; then its conclusion may be used"""
+    from vprim import fact, oblige, fresh_int, use_lemma
+    oblige('precondition of lemma_translation_keeps_the_crossing_parity (arbitrary index)', shifted(vx, vy, wx, wy, k, l, fresh_int('E')))
+    use_lemma('lemma_translation_keeps_the_crossing_parity')
+    fact(crossings_odd(vx, vy, x, y) == crossings_odd(wx, wy, x + k, y + l))
+
+
+def apply_pixel_translation(vx, vy, wx, wy, x0, y0, x1, y1, n, k, l):
+    """modular use of lemma_translation_keeps_the_sampled_fraction"""
+    from vprim import fact, oblige, fresh_int, use_lemma, implies
+    oblige('precondition of lemma_translation_keeps_the_sampled_fraction (arbitrary index)', shifted(vx, vy, wx, wy, k, l, fresh_int('E')))
+    use_lemma('lemma_translation_keeps_the_sampled_fraction')
+    fact(implies(n >= 1, tot_count('polygon', (vx, vy), x0, y0, x1 - x0, y1 - y0, n, n)
+                 == tot_count('polygon', (wx, wy), x0 + k, y0 + l, x1 - x0, y1 - y0, n, n)))
+
+
+def ghost_pixel_vs_shifted_polygon(vx, vy, wx, wy, x0, y0, x1, y1, n, k, l):
+    for a in range(n):
+        for b in range(n):
+            pass
+    return (tot_count('polygon', (vx, vy), x0, y0, x1 - x0, y1 - y0, n, n), tot_count('polygon', (wx, wy), x0 + k, y0 + l, x1 - x0, y1 - y0, n, n))
+
+
+def _shift_outer(a, vx, vy, wx, wy, x0, y0, x1, y1, n, k, l):
+    return (tot_count('polygon', (vx, vy), x0, y0, x1 - x0, y1 - y0, n, a) == tot_count('polygon', (wx, wy), x0 + k, y0 + l, x1 - x0, y1 - y0, n, a))
+
+
+def _shift_inner(b, a, vx, vy, wx, wy, x0, y0, x1, y1, n, k, l):
+    from vprim import fact, use_lemma
+    from spec.masks import sample_point
+    if not (isinstance(b, int) and b == 0):
+        p = sample_point(x0, y0, x1 - x0, y1 - y0, n, a, b - 1)
+        apply_point_translation(vx, vy, wx, wy, p[0], p[1], k, l)
+    return (0 <= a and a < n and _shift_outer(a, vx, vy, wx, wy, x0, y0, x1, y1, n, k, l)
+            and col_count('polygon', (vx, vy), x0, y0, x1 - x0, y1 - y0, n, a, b) == col_count('polygon', (wx, wy), x0 + k, y0 + l, x1 - x0, y1 - y0, n, a, b))
+
+
+@contract('contracts/k_kernels.py::ghost_pixel_vs_shifted_polygon', props=['C15'])
+class lemma_translation_keeps_the_sampled_fraction:
+    def setup(B):
+        m = B.int('m')
+        B.assume(m >= 1)
+        vx, vy, k, l = B.array('vx', (m,)), B.array('vy', (m,)), B.real('k'), B.real('l')
+        return dict(vx=vx, vy=vy, wx=vx + k, wy=vy + l, x0=B.real('x0'), y0=B.real('y0'), x1=B.real('x1'), y1=B.real('y1'), n=B.int('n'), k=k, l=l)
+    pre = lambda n: n >= 1
+    loops = {
+        'ghost_pixel_vs_shifted_polygon#0': lambda a, vx, vy, wx, wy, x0, y0, x1, y1, n, k, l: _shift_outer(a, vx, vy, wx, wy, x0, y0, x1, y1, n, k, l),
+        'ghost_pixel_vs_shifted_polygon#1': lambda b, a, vx, vy, wx, wy, x0, y0, x1, y1, n, k, l: _shift_inner(b, a, vx, vy, wx, wy, x0, y0, x1, y1, n, k, l),
+    }
+    post = {'same_count': lambda result: result[0] == result[1]}
